@@ -108,7 +108,8 @@ def gen_stream(rng, native):
             rows.append(rng.choice([[], [""], ["", ""], [" "]] if not native else [[], [""], [None], [None, None]]))
         elif r < 0.7:
             rows.extend([[], []])
-        el = rng.choice(["table", "table", "table", "directive", "template", "comment", "late_key", "blank_payload"])
+        el = rng.choice(["table", "table", "table", "directive", "template", "comment", "late_key", "blank_payload",
+                         "empty_table"])
         if el == "comment" and r >= 0.7 and rows:
             rows.append([])          # a plain row without separator would belong to the block before it
         kinds.append(el)
@@ -125,6 +126,15 @@ def gen_stream(rng, native):
                 kinds.append("col:" + k)
             kinds.append("transposed" if info["transposed"] else "rowwise")
             kinds.append("rows:" + str(info["n_row"]))
+        elif el == "empty_table":
+            # a table without columns: just the `**name` row and the destinations row, either orientation
+            nm = rc.rand_text(rng, rc.NAME_ALPHA, 1, 4).rstrip("*") or "e"
+            tr = rng.random() < 0.5
+            blank = (None if native else "")
+            rows.append(["**" + nm + ("*" if tr else "")] + [blank] * rng.choice([0, 0, 1, 2]))
+            rows.append([rng.choice(["all", "a b", " all ", "x a x"])] + [blank] * rng.choice([0, 0, 1, 3]))
+            tables.append((len(rows) - 2, 2, nm))
+            kinds.append("transposed" if tr else "rowwise")
         elif el == "directive":
             rows.append(["***" + rng.choice(["include", "d", "x y", ""])] + ([""] if rng.random() < 0.3 else []))
             for _ in range(rng.randint(0, 3)):
@@ -467,7 +477,7 @@ def run(tier, seed, model_ok, translator, search=False):
     out = Outcome()
     out.rule = ("multi-block inputs: well-formed tables of every column kind (text and native cells, markers, missing values, datetimes down to "
                 "nanoseconds (a column with one such value is held as datetime64[ns]), "
-                "both orientations, zero rows, padding, comments after the names) interleaved with metadata, directives, "
+                "both orientations, zero rows, no columns at all (name and destination rows only), padding, comments after the names) interleaved with metadata, directives, "
                 "template rows, comments, late `key:` rows and blank lines with payload, with and without blank separators, "
                 "25 % with a read filter; the three readers of a case are consumed one after the other (30 %), in lock-step (40 %) "
                 "or staggered (a reader started after k blocks of another, 30 %); each through parse_blocks (text / native cells), read_csv (StringIO) and read_excel "
